@@ -288,10 +288,11 @@ def check_padding(profile, extra, scalar, return_ctx, single_item, p):
                 # a fixed-size field and a second variable-length field (lengths mirrored) - both are tensor fields
                 s = s + (torch.full((3,), float(i)), torch.arange(1, (4 - L) + 1, dtype=torch.float32) * (i + 1))
             if scalar:
-                s = s + (i,)
+                # python scalars of every kind: int, a float that float32 cannot hold (unix timestamp), bool
+                s = s + (i, 1695800000.25 + i, bool(i % 2))
             s = s + (torch.tensor(float(L)),)
         samples.append((s, {"pre": float(i)}) if return_ctx else s)
-    mode = "x" if single_item else " ".join(["x"] + (["fixed", "y"] if extra else []) + (["index"] if scalar else []) + ["seqlen"])
+    mode = "x" if single_item else " ".join(["x"] + (["fixed", "y"] if extra else []) + (["index", "timestamp", "flag"] if scalar else []) + ["seqlen"])
     p.evaluations += 1
     try:
         out = PadSequencesCollator(dataset_mode=mode, return_ctx=return_ctx)(samples)
@@ -333,8 +334,10 @@ def check_padding(profile, extra, scalar, return_ctx, single_item, p):
                     return
                 continue
             want = default_collate([r[k] for r in raw])
-            if not (torch.is_tensor(fields[k]) and fields[k].shape == want.shape and torch.equal(fields[k], want)):
-                p.violation(f"C18:padding:other_field_not_default_collated{tag}", case, f"field {k}: {fields[k]} vs {want}")
+            if not (torch.is_tensor(fields[k]) and fields[k].shape == want.shape and fields[k].dtype == want.dtype
+                    and torch.equal(fields[k], want)):
+                p.violation(f"C18:padding:other_field_not_default_collated{tag}", case,
+                            f"field {k}: {fields[k]} ({getattr(fields[k], 'dtype', None)}) vs default collation {want} ({want.dtype})")
                 return
     p.observe(("pad", tuple(profile), extra, scalar, return_ctx, single_item))
 
